@@ -67,7 +67,7 @@ func (mdb *memDb) Get(ctx context.Context, key []byte) ([]byte, error) {
 	if mk.Translation != "" {
 		v, ok = mdb.store[mk.Translation]
 		if ok {
-			return v, nil
+			return copyOf(v), nil
 		}
 	}
 	v, ok = mdb.store[mk.Default]
@@ -75,7 +75,17 @@ func (mdb *memDb) Get(ctx context.Context, key []byte) ([]byte, error) {
 		//b, _ := hex.DecodeString(k)
 		return nil, db.NewErrNotFound(key)
 	}
-	return v, nil
+	return copyOf(v), nil
+}
+
+// like the other backends, the store neither keeps the caller's buffer nor hands out its own.
+func copyOf(b []byte) []byte {
+	if b == nil {
+		return nil
+	}
+	c := make([]byte, len(b))
+	copy(c, b)
+	return c
 }
 
 // Put implements Db
@@ -93,7 +103,7 @@ func (mdb *memDb) Put(ctx context.Context, key []byte, val []byte) error {
 	} else {
 		k = mk.Default
 	}
-	mdb.store[k] = val
+	mdb.store[k] = copyOf(val)
 	logg.TraceCtxf(ctx, "mem put", "k", k, "mk", mk, "v", val)
 	return nil
 }
